@@ -113,3 +113,14 @@ func InterfaceByName(name string) (*net.Interface, error) {
 	}
 	return net.InterfaceByName(name)
 }
+
+// UDPWriteFunc is the seam for code that writes to a concrete *net.UDPConn.
+type UDPWriteFunc func(conn *net.UDPConn, b []byte, addr *net.UDPAddr) (int, error)
+
+// UDPWriteTo replaces conn.WriteToUDP(b, addr).
+func UDPWriteTo(conn *net.UDPConn, b []byte, addr *net.UDPAddr) (int, error) {
+	if s := cur.Load(); s != nil && s.UDPWrite != nil && s.lookup() != nil {
+		return s.UDPWrite(conn, b, addr)
+	}
+	return conn.WriteToUDP(b, addr)
+}
